@@ -11,7 +11,7 @@ import concurrent.futures as cf
 from . import engine
 from .engine import VERIF, REPO, load_json
 
-from units.registry import PROPS, UNIT_KIND  # noqa: E402
+from units.registry import PROPS, UNIT_KIND, ALSO_RELEVANT  # noqa: E402
 
 BASELINE = os.path.join(VERIF, 'baseline', 'obligations.json')
 KNOWN = os.path.join(VERIF, 'known_findings.json')
@@ -50,7 +50,7 @@ def relevant(pid, failure):
     lab = failure.get('label') or ''
     m = re.match(r'^(C\d+)\.', lab)
     if m:
-        return m.group(1) == pid
+        return m.group(1) == pid or any(lab.startswith(x) for x in ALSO_RELEVANT.get(pid, []))
     return True
 
 
@@ -246,6 +246,29 @@ def run_property(pid, tier, seed):
     if code == 1 and not vlines:
         code = 0
     if code == 0 and undecided:
+        # The verifier could not decide (construct outside the dialect, lost anchor, lost ghost support).  A bounded search on
+        # the REAL code may still exhibit a failing input: that is reported as a violation found by the bounded stand-in
+        # (labelled as such; the replay file carries the input and the reason the verifier was undecided).
+        from . import witness as wit
+        done = set()
+        for (u, why) in undecided:
+            if u in done:
+                continue
+            done.add(u)
+            try:
+                w = wit.search(pid, u, {}, tier, seed)
+            except Exception:
+                w = None
+            if w is not None:
+                f = {'obligation': '%s.%s.bounded-search-on-real-code' % (pid, u), 'fn': '(unit %s)' % u, 'where': 'see witness', 'line': 0,
+                     'message': 'verifier undecided (%s); a bounded search on the real code found a failing input' % why[:300],
+                     'text': why[:200], 'label': None}
+                path = write_replay(pid, u, f, results[u], w)
+                print('obligation=%s function=%s: %s' % (f['obligation'], f['fn'], f['message'][:400]))
+                print('VIOLATION property=%s replay=%s' % (pid, path))
+                violations.append((u, f))
+                code = 1
+    if code == 0 and undecided:
         code = 2
         for (u, why) in undecided:
             print('UNDECIDED property=%s unit=%s reason=%s' % (pid, u, why[:1200]))
@@ -384,6 +407,12 @@ def replay(pid, path):
         from . import witness as wit
         ok = wit.replay(doc['witness'])
         print('witness %s: %s' % (json.dumps(doc['witness'])[:300], 'still fails on the real code' if ok else 'no longer fails'))
+    if doc['obligation'].endswith('.bounded-search-on-real-code'):
+        if doc.get('witness') and ok:
+            print('VIOLATION property=%s replay=%s' % (pid, path))
+            return 1
+        print('the stored input no longer fails on the current tree')
+        return 0
     res = run_units([doc['unit']], 'quick', 0)
     r = res[doc['unit']]
     hit = [f for f in r.failures if f['obligation'] == doc['obligation']]
